@@ -68,6 +68,13 @@ def h_augment(sk, base_kind, mask, list_override):
     elif base_kind == 'instance-discount':
         base = mdp
         base.discount_rate = v.gamma          # instance attribute (as the built-in domains set it in __init__)
+    elif base_kind == 'augmented':
+        # the base is ITSELF a derived MDP whose five components were all supplied as overrides (plain functions): deriving from a derived MDP
+        # (e.g. running an option on a sub-task) must preserve them too
+        mdp.discount_rate = v.gamma
+        base = opt.augment(mdp, initial_state_dist=lambda: mdp.initial_state_dist(), actions=lambda s: mdp.actions(s),
+                           next_state_dist=lambda s, a: mdp.next_state_dist(s, a), reward=lambda s, a, ns: mdp.reward(s, a, ns),
+                           is_absorbing=lambda s: mdp.is_absorbing(s))
     else:
         base = mdp
     over = {}
@@ -111,7 +118,7 @@ def h_augment(sk, base_kind, mask, list_override):
         for c in COMPONENTS:
             S.check('augment:%s-%s' % (c, 'is-the-override' if over.get(c) is not None else 'is-the-base-component'), S.And(ok[c]))
         S.check('augment:discount-rate-is-the-base-discount-rate', S.eq(aug.discount_rate, v.gamma))
-        if base_kind != 'quick':
+        if base_kind not in ('quick',):
             if list_override:
                 S.check('augment:list-overrides-are-used', S.truth(tuple(aug.state_list) == tuple(reversed(states)) and tuple(aug.action_list) == tuple(reversed(sk.action_list)) + ('only',)))
             else:
@@ -335,12 +342,17 @@ def _same(got, want):
     return isinstance(got, tuple) and len(got) == len(want) and all(x is y for x, y in zip(got, want))
 
 
-def h_augment_U(mask):
+def h_augment_U(mask, nested=False):
     """augment() over an ABSTRACT base MDP: for arbitrary states/actions (atoms) every non-overridden component returns what the base returns, every overridden one
     what the override returns; the discount rate is the base's; the base is untouched.  No skeleton, no bound."""
     import z3
     from symrun.absx import fresh_atom
     base, u = _abstract_base()
+    if nested:
+        # the base is itself derived: all five components are plain functions supplied as overrides (F22)
+        b0 = base
+        base = opt.augment(b0, initial_state_dist=lambda: b0.initial_state_dist(), actions=lambda x: b0.actions(x), next_state_dist=lambda x, y: b0.next_state_dist(x, y),
+                           reward=lambda x, y, z: b0.reward(x, y, z), is_absorbing=lambda x: b0.is_absorbing(x))
     ov = _abstract_base('ovr')[1]
     s, a, ns = fresh_atom('s'), fresh_atom('a'), fresh_atom('ns')
     over = {}
@@ -555,15 +567,14 @@ def rt_plan_to_subgoal(seed, n):
 
 def tasks(tier, seed):
     T = []
-    sk2 = M.family_basic('quick')[1]      # s2-explicit
-    sk3 = M.family_basic('quick')[2]      # s3-branch
+    sk2, sk3 = M.basic('s2-explicit'), M.basic('s3-branch')
     for sk in (sk2, sk3):
-        for bk in ('class-discount', 'instance-discount', 'quick'):
+        for bk in ('class-discount', 'instance-discount', 'quick', 'augmented'):
             for mask in range(32):
-                if tier == 'quick' and sk is sk3 and bk == 'quick' and mask not in (0, 31, 8, 16):
+                if tier == 'quick' and sk is sk3 and bk in ('quick', 'augmented') and mask not in (0, 31, 8, 16):
                     continue
                 T.append(Task('augment/%s/%s/mask%02d' % (sk.name, bk, mask), h_augment, (sk, bk, mask, False), tier='B'))
-            if bk != 'quick':
+            if bk not in ('quick', 'augmented'):
                 T.append(Task('augment/%s/%s/list-overrides' % (sk.name, bk), h_augment, (sk, bk, 0, True), tier='B'))
     cor = corridor()
     for pk in ('right', 'mixed'):
@@ -584,6 +595,8 @@ def tasks(tier, seed):
                 T.append(Task('semimdp/%s/n%d/inc%d' % (pk, nsim, inc), h_semimdp, (cor, pk, (4,), 1, nsim, inc), tier='B', max_paths=6000))
     for mask in range(32):
         T.append(Task('U/augment/abstract-base/mask%02d' % mask, h_augment_U, (mask,), tier='U', note='uninterpreted base components, arbitrary atoms'))
+    for mask in (0, 5, 8, 16, 26, 31):
+        T.append(Task('U/augment/abstract-derived-base/mask%02d' % mask, h_augment_U, (mask, True), tier='U', note='the base is itself an augmented MDP'))
     for inc in (False, True):
         for clip in (False, True):
             T.append(Task('U/sub_task/abstract-base/inc%d/clip%d' % (inc, clip), h_sub_task_U, (inc, clip), tier='U', note='abstract sub-goal and initiation sets'))
@@ -608,6 +621,8 @@ END_MANIFEST_ENTRY = True
 SENTINELS = [
     Sentinel('U:augment-drops-the-discount-rate', 'msdm.core.semimdp.option', "    AugmentedMDP.discount_rate = mdp.discount_rate\n", "    AugmentedMDP.discount_rate = 1.0\n",
              ['U/augment/abstract-base/mask00']),
+    Sentinel('U:augment-stores-inherited-components-unwrapped', 'msdm.core.semimdp.option', "        AugmentedMDP.is_absorbing = staticmethod(mdp.is_absorbing)", "        AugmentedMDP.is_absorbing = mdp.is_absorbing",
+             ['U/augment/abstract-derived-base/mask08']),
     Sentinel('U:augment-ignores-a-reward-override', 'msdm.core.semimdp.option', "        AugmentedMDP.reward = staticmethod(reward)", "        AugmentedMDP.reward = mdp.reward",
              ['U/augment/abstract-base/mask08']),
     Sentinel('U:sub_task-clips-rewards-into-subgoals-too', 'msdm.core.semimdp.option', "            if self.is_terminal(ns):\n                return real_reward", "            if False:\n                return real_reward",
